@@ -164,3 +164,29 @@ void h_inverse(void)
     }
     if (g_vf_calls) __CPROVER_assert(g_vf_scope == &ent && g_vf_name == n_inv && g_vf_strict == 1, "the attribute look-up is asked about the named entity, the FOR name, strictly");
 }
+
+/* C04/C20 (function calls): a call of an undefined name is rejected (UNDEFINED_FUNC, quoting that name); a call with the wrong
+ * number of arguments is diagnosed quoting the function's name, then the number of arguments USED, then the number EXPECTED */
+void h_funcall(void)
+{
+    IN(int, in_found); IN(int, in_nargs); IN(int, in_pcount);
+    static struct Expression_ ex; static struct Scope_ t_fc, fn, scope; static struct TypeHead_ h_fc; static struct TypeBody_ b_fc; static struct Function_ fu;
+    static struct Linked_List_ args; static struct Link_ amk; static char n_f[4] = "fun";
+    __CPROVER_assume(in_nargs >= 0 && in_nargs <= 1000 && in_pcount >= 0 && in_pcount <= 1000);
+    t_fc.u.type = &h_fc; h_fc.body = &b_fc; b_fc.type = funcall_;
+    ex.type = &t_fc; ex.symbol.name = n_f; ex.symbol.resolved = 0;
+    args.mark = &amk; amk.next = &amk; amk.prev = &amk; ex.u.funcall.list = &args;      /* the arguments themselves are resolved elsewhere */
+    fn.u.func = &fu; fu.pcount = in_pcount; fu.return_type = &t_fc;
+    g_sf_result = in_found ? &fn : 0; g_sf_kind = OBJ_FUNCTION; g_sf_calls = 0; g_nargs = in_nargs;
+    g_rep_calls = g_rep_error_class = 0;
+    EXP_resolve(&ex, &scope, 0);
+    __CPROVER_assert(g_sf_calls >= 1 && g_sf_name == n_f, "the function is looked up under the name written in the call");
+    if (!in_found) {
+        __CPROVER_assert(g_rep_error_class == 1 && g_rep_errnum == UNDEFINED_FUNC && (ex.symbol.resolved & RESOLVE_FAILED), "C04 a call of an undefined function is rejected with UNDEFINED_FUNC and the expression marked failed");
+        __CPROVER_assert(g_rep_sym == &ex.symbol && g_rep_a1 == (const void *)n_f, "C20 the diagnostic is attributed to the call and quotes the undefined name");
+    } else if (in_nargs != in_pcount) {
+        __CPROVER_assert(g_rep_calls == 1 && g_rep_errnum == WRONG_ARG_COUNT, "a call with the wrong number of arguments is diagnosed");
+        __CPROVER_assert(g_rep_sym == &ex.symbol && g_rep_a1 == (const void *)n_f && g_rep_i1 == in_nargs && g_rep_i2 == in_pcount, "C20 the wrong-argument-count diagnostic quotes the function's name, the number of arguments the call uses and the number the function expects, in that order");
+    } else
+        __CPROVER_assert(g_rep_calls == 0 && ex.u.funcall.function == &fn && !(ex.symbol.resolved & RESOLVE_FAILED), "a call with the right number of arguments is accepted and bound to the function");
+}
